@@ -58,6 +58,7 @@ func WaitCond(ctx context.Context, cond *sync.Cond, fn func() bool) error {
 						defer l.Unlock()
 					}
 					cond.Broadcast()
+					verifAt("sync.wc.watch.bcast", cond, 0)
 					if !locked {
 						panic(errors.New("bigbuff.WaitCond unable to lock while triggering a broadcast due to context cancel"))
 					}
